@@ -324,6 +324,17 @@ def run(ctx):
             else:
                 ops.append(("knotclean",))
         run_case(ctx, ser(dict(kind="seq", U=U, P=None, W=W, ops=ops, other=None, mutators_only=True)))
+    # multi-degree reductions that can only go part of the way: an elevated generic curve asked to go two (three) degrees down is
+    # representable one degree lower but not two — the request must fail as a whole and leave the curve as it was
+    for i in range(budget(ctx, 6, 60)):
+        U, P, W = rand_curve(rng, pmax=2, nintmax=2, weights=rng.choice(["none", "none", "pos"]))
+        if kv_info(U)[0] == 0:
+            continue
+        up = rng.randint(1, 2)
+        ops = [("deginc", F(up)), ("degdec", F(up + 1), "default")]
+        if rng.random() < 0.5:
+            ops = [("deginc", F(up)), ("setdeg", F(kv_info(U)[0] - 1))]
+        run_case(ctx, ser(dict(kind="seq", U=U, P=P, W=W, ops=ops, other=None, mutators_only=True)))
     # a refused insertion next to a knot (rational curves refuse such nodes, KNOWN_FINDINGS C04) must leave the curve as it was (D34)
     for i in range(budget(ctx, 6, 60)):
         U, P, W = rand_curve(rng, pmax=3, nintmax=3, weights="pos")
